@@ -457,6 +457,29 @@ def tree_structure(ctx):
             okp = pth is None
             ctx.ob(okp, fu, 'a placed type is not filed again as a fresh sibling: %s' % norm(pl.ast)[:70],
                    '' if okp else 'the fallback store overwrites the subtree just built: %s' % fmt_witness(fcfg, pth), node=pl.ast)
+        # adopting a second sibling keeps the first: inside the loop the new type's subtree is
+        # created only when it does not exist yet (KeyError handler / membership guard), or
+        # is built from the existing one
+        for pl in placements:
+            tg0 = pl.ast.targets[0]
+            if not (is_name(tg0.value, tree) and is_name(tg0.slice, new_type)):
+                continue
+            cur = '%s[%s]' % (tree, new_type)
+            okp = any(norm(x).startswith(cur) or norm(x).startswith('%s.get(%s' % (tree, new_type))
+                      for x in ast.walk(pl.ast.value) if isinstance(x, (ast.Subscript, ast.Call)))
+            for a in ancestors(pl.ast):
+                if isinstance(a, ast.ExceptHandler) and a.type is not None and 'KeyError' in norm(a.type):
+                    tr = [t for t in ancestors(a) if isinstance(t, ast.Try) and a in t.handlers]
+                    if tr and any(isinstance(x, ast.Subscript) and norm(x.value) == cur for b_ in tr[0].body for x in ast.walk(b_)):
+                        okp = True
+            for t in fcfg.nodes:
+                if t.kind == 'test' and fcfg.dominates(t, pl):
+                    pol = polarity(t.ast, '%s not in %s' % (new_type, tree))
+                    if pol and pl in exclusive(fcfg, t, pol):
+                        okp = True
+            ctx.ob(okp, fu, "the new type's subtree is created only when absent: %s" % norm(pl.ast)[:70],
+                   '' if okp else 'a second adopted subclass replaces the subtree holding the first (earlier siblings fall out of the tree)',
+                   node=pl.ast)
         hdr = fcfg.node_of(lp[0])
         pth = fcfg.find_path(fcfg.entry, set(fallback), avoid=set(placements), labels=nonexc)
         ctx.ob(pth is not None, fu, 'a type related to no sibling is filed as a new sibling')
@@ -519,6 +542,15 @@ def register_stores(ctx):
         dd = deref(ctx.cfg(gu), ctx.cfg(gu).node_containing(cs[0]), kv[0]) if kv else None
         ok = isinstance(dd, ast.Call) and matches(dd, "%s.pop('exact', False)" % gu.kwarg)
     ctx.ob(ok, gu, 'Glommer.register passes exact on')
+    # ... and the handlers exactly as given (False = "this type does not support the op" is a value)
+    fw = [k.value for k in cs[0].keywords if k.arg is None] if cs else []
+    gcfg2 = ctx.cfg(gu)
+    okh = len(fw) == 1 and is_name(fw[0], gu.kwarg)
+    if okh:
+        defs = gcfg2.reaching_defs(gcfg2.node_containing(cs[0]), gu.kwarg)
+        okh = bool(defs) and all(isinstance(v, tuple) and v and v[0] == 'param' for _, v in defs)
+    ctx.ob(okh, gu, 'Glommer.register forwards the handlers it was given, unfiltered: %s' % [norm(x) for x in fw],
+           '' if okh else 'a handler of False / None is a registration too; filtered, autodiscovery replaces it')
     # type check
     first = next((n for n in u.node.body if isinstance(n, ast.If)), None)
     ctx.ob(isinstance(first, ast.If) and norm(first.test) == 'not isinstance(%s, type)' % ttype, u, 'only types can be registered')
@@ -553,3 +585,40 @@ def tree_insertion_order_is_deterministic(ctx):
                    'objects matching two sibling types) depends on object addresses' % norm(it)[:70], node=lp)
     ctx.require(n >= 2, 'TargetRegistry: tree-inserting loops not found (%d)' % n)
     ctx.floor(2)
+
+
+PUBLIC_ENTRIES = {'core.glom', 'mutation.assign', 'mutation.delete', 'reduction.flatten', 'reduction.merge',
+                  'core.Glommer.glom', 'core.Fill.fill', 'matching.Match.verify', 'matching.Match.matches'}
+
+
+@rule('C13.13')
+def nested_evaluation_keeps_the_registry(ctx):
+    """the registry in force travels in the scope: code running inside an evaluation starts a
+    nested one through ``scope[glom](target, spec, scope)``.  A call of the public entry points
+    (glom(), assign(), delete(), ...) from there begins a fresh top-level call on the default
+    registry: a Glommer's registrations stop applying inside the nested part"""
+    from ..callgraph import reachable_from
+    p = ctx.program
+    roots = [p.unit('core._glom')]
+    spec_classes = set(p.glomit_classes())
+    for u in p.package_units():
+        if u.parent is not None:
+            top = u
+            while top.parent is not None:
+                top = top.parent
+            if top.cls in spec_classes:
+                roots.append(u)
+    reach, modes, evals = reachable_from(p, roots)
+    ctx.require(len(reach) >= 100, 'call-graph closure of the evaluator has only %d functions' % len(reach))
+    n = 0
+    for u in sorted(reach, key=lambda x: x.qualname):
+        if u.qualname in PUBLIC_ENTRIES:
+            continue
+        for c in calls_in(u):
+            q = callee_qual(p, u, c)
+            if q in PUBLIC_ENTRIES:
+                n += 1
+                ctx.ob(False, u, 'no public entry point is called from inside an evaluation: %s' % norm(c)[:80],
+                       '%s starts a new top-level call: default registry, fresh scope (the registry of the running call is lost)' % q, node=c)
+    ctx.ob(n == 0, 'package', 'nested evaluations go through scope[glom] (%d evaluation functions examined, %d entry-point calls)' % (len(reach), n))
+    ctx.floor(1)
